@@ -22,6 +22,18 @@ type BugCache struct {
 	CachedEntityBase[*bug.Snapshot, bug.Operation]
 }
 
+// checkFilesStored makes sure that the content of every attached file is in the repository. An operation
+// referencing a missing blob can't be committed: it has to be refused before it is staged, or it would
+// stay in the cached entity and make every later commit fail.
+func checkFilesStored(repo repository.RepoData, files []repository.Hash) error {
+	for _, hash := range files {
+		if _, err := repo.ReadData(hash); err != nil {
+			return fmt.Errorf("attached file %s is not stored in the repository: %v", hash, err)
+		}
+	}
+	return nil
+}
+
 func NewBugCache(b *bug.Bug, repo repository.ClockedRepo, getUserIdentity getUserIdentityFunc, entityUpdated func(id entity.Id) error) *BugCache {
 	return &BugCache{
 		CachedEntityBase: CachedEntityBase[*bug.Snapshot, bug.Operation]{
@@ -47,6 +59,10 @@ func (c *BugCache) AddCommentWithFiles(message string, files []repository.Hash) 
 }
 
 func (c *BugCache) AddCommentRaw(author identity.Interface, unixTime int64, message string, files []repository.Hash, metadata map[string]string) (entity.CombinedId, *bug.AddCommentOperation, error) {
+	if err := checkFilesStored(c.repo, files); err != nil {
+		return entity.UnsetCombinedId, nil, err
+	}
+
 	c.mu.Lock()
 	commentId, op, err := bug.AddComment(c.entity, author, unixTime, message, files, metadata)
 	c.mu.Unlock()
@@ -189,6 +205,10 @@ func (c *BugCache) EditCommentRaw(author identity.Interface, unixTime int64, tar
 func (c *BugCache) EditCommentWithFilesRaw(author identity.Interface, unixTime int64, target entity.CombinedId, message string, files []repository.Hash, metadata map[string]string) (*bug.EditCommentOperation, error) {
 	comment, err := c.Snapshot().SearchComment(target)
 	if err != nil {
+		return nil, err
+	}
+
+	if err := checkFilesStored(c.repo, files); err != nil {
 		return nil, err
 	}
 
